@@ -34,7 +34,7 @@ fn check_slice_chunk(data: &[u8]) -> bool {
             want = Some((h.num_keys as usize, h.flags));
         }
     }
-    match (got, want) {
+    match (&got, want) {
         (Ok(sl), Some((n, flags))) => {
             let h = fmt::slice_head(data).unwrap();
             assert!(sl.name.as_bytes() == &data[h.name.0..h.name.1], "slice name");
@@ -58,24 +58,29 @@ fn check_slice_chunk(data: &[u8]) -> bool {
         (Ok(_), None) => assert!(false, "decoder accepted a slice chunk the format rejects"),
         (Err(_), Some(_)) => assert!(false, "decoder rejected a well-formed slice chunk"),
     }
+    core::mem::forget(got); // dropping io::Error (bit-packed pointer repr) is very expensive for CBMC
     decoded_ok
 }
 
 macro_rules! slice_shape {
-    ($hname:ident, $n:expr, $u:expr, $can_ok:expr) => {
+    ($hname:ident, $n:expr, $u:expr, $can_ok:expr, [$([$(($off:expr, $val:expr)),*]),*]) => {
         crate::verif_harness! {
-            /// slice::parse_chunk on every payload of exactly $n bytes (flags, key count, all values symbolic).
+            /// slice::parse_chunk on every payload of exactly $n bytes (flags, key count and all key values symbolic).
+            /// Length fields of strings are pinned to the listed concrete values (one decoder run per pin set); every other byte is symbolic.
             #[kani::stub(std::fmt::format, crate::verif_spec::stubs::format_stub)]
             #[kani::unwind($u)]
             fn $hname(s) {
-                let d: [u8; $n] = s.bytes();
-                let ok = check_slice_chunk(&d);
-                crate::vcover!(ok || !$can_ok, "a well-formed payload of this size decodes");
-                crate::vcover!(!ok, "a malformed payload of this size is rejected");
+                let mut d: [u8; $n] = s.bytes();
+                $(
+                    $( crate::verif_spec::pin16(&mut d, $off, $val); )*
+                    let ok = check_slice_chunk(&d);
+                    crate::vcover!(ok || !$can_ok, "a well-formed payload decodes");
+                    crate::vcover!(!ok, "a malformed payload is rejected");
+                )*
             }
         }
     };
 }
-slice_shape!(k_slice_chunk_14, 14, 3, true); // no keys, empty name
-slice_shape!(k_slice_chunk_34, 34, 23, true); // one plain key
-slice_shape!(k_slice_chunk_58, 58, 47, true); // one key with 9-slice + pivot, or with one of them, or two...
+slice_shape!(k_slice_chunk_14, 14, 4, true, [[(12, 0)], [(12, 1)]]); // no keys
+slice_shape!(k_slice_chunk_34, 34, 4, true, [[(12, 0)]]); // one plain key
+slice_shape!(k_slice_chunk_58, 58, 6, true, [[(12, 0)], [(12, 4)]]); // one key with 9-slice + pivot / two plain keys
